@@ -1,5 +1,9 @@
 import MtxVerif.Model.C07
+import MtxVerif.Gen.C07
 open MtxVerif MtxVerif.C07
+
+/-- does `dumpRequest` canonicalise the map key before the lookup (regenerated from the source) -/
+def canon : Bool := MtxVerif.Gen.C07.lookupCanonical
 
 structure D where
   redactSet : List Bytes := []
@@ -110,7 +114,7 @@ def step (d : D) (op impl : String) : D × DrvOut :=
     match parsed with
     | none => (d, { model := "bad-op", spec := "FAIL unparsable dump op" })
     | some (rl, hl, hs, body, _) =>
-      let model := Hex.encode (dump d.redactSet rl hl hs body)
+      let model := Hex.encode (dump canon d.redactSet rl hl hs body)
       let spec := match Hex.decode impl with
         | none => "FAIL unparsable implementation answer"
         | some out =>
@@ -120,7 +124,7 @@ def step (d : D) (op impl : String) : D × DrvOut :=
           if !bad.isEmpty then
             "FAIL the value of a credential header appears in the request dump: " ++ bytesStr (bad.head?.getD [])
           else if !badOther.isEmpty then
-            if impl == model && !keysCanonical d.redactSet hs then
+            if impl == model && !canon && !keysCanonical d.redactSet hs then
               "KNOWN noncanonical-key a credential header whose map key is not in canonical spelling is dumped in clear (exact-match lookup in requestHeadersToRedact): " ++ bytesStr (badOther.head?.getD [])
             else "FAIL the value of a credential header appears in the request dump: " ++ bytesStr (badOther.head?.getD [])
           else "ok"
